@@ -164,6 +164,11 @@ def _run_index(cfg, rec, dp):
         rec.check(ctx, "align_index = nearest permitted target within tolerance, else itself", goal,
                   fingerprint=f"align_index:{method}:wrong-target",
                   witness=lambda mm, vars_=vars_: {"env": model_env(mm, vars_)})
+        if m is not None and len(rec.validations) < rec.cfg.get("max_validations", 6):
+            ds_ = [t - v.e for t in tz]
+            ties = [c for i_ in range(len(ds_)) for c in (ds_[i_] != tol.e, ds_[i_] != -tol.e)]
+            ties += [c for i_ in range(len(ds_)) for j_ in range(i_ + 1, len(ds_)) for c in (ds_[i_] != ds_[j_], ds_[i_] != -ds_[j_])]
+            m = ctx.model(extra=ties)  # a validation point away from exact ties (they resolve either way in floats)
         if m is not None:
             env = model_env(m, vars_)
             rec.validate("path", env, {"r": core.evalf(zreal(r), env)})
@@ -265,6 +270,17 @@ def _run_axis(cfg, rec, dp):
             items.append(("no refusal missed: assignments of one dataset are pairwise distinct", z3.Not(dup),
                           f"create_aligned:{method}:merge-not-refused"))
             aligned = aligned + assigned
+        # validation point away from exact ties (equal distances / distance == tolerance): there exact and float
+        # arithmetic may legitimately pick different targets ("ties resolve either way")
+        ties = []
+        for (index, tgt, _r) in calls:
+            ds_ = [zreal(t) - zreal(index) for t in tgt]
+            for i_ in range(len(ds_)):
+                ties += [ds_[i_] != tol.e, ds_[i_] != -tol.e]
+                for j_ in range(i_ + 1, len(ds_)):
+                    ties += [ds_[i_] != ds_[j_], ds_[i_] != -ds_[j_]]
+        mv = ctx.model(extra=ties) if m is not None and len(rec.validations) < rec.cfg.get("max_validations", 6) else None
+        m = mv
         if kind == "exc":
             if type(out).__name__ != "AlignDatasetError" or not refused:
                 rec.unexpected(ctx, f"unexpected {type(out).__name__}: {out}", f"create_aligned:{method}:exception", wit)
